@@ -4,7 +4,7 @@
 // in order, character for character without the newline, however the appends are chunked and however they interleave with
 // the reader's polls or fall relative to its buffer; an unterminated tail is never delivered.  With --head delivery starts
 // at the first byte, otherwise at the first byte appended after start-up.
-// Grid: FollowFileIterator over a file that a writer thread appends to: 7 contents (ASCII, multi-byte characters, empty
+// Grid: FollowFileIterator over a file that a writer thread appends to: 8 contents (ASCII, a leading byte order mark, multi-byte characters, empty
 // lines, CRLF, a line of 20000 bytes, an unterminated tail that is completed later) x chunkings (single bytes, 2, 3, 5, 7,
 // 4096, cuts around every newline and inside every multi-byte character) x reader buffer sizes (1, 2, 3, 16, 8192) x
 // writer pauses (none / 1 ms); the reader asks for exactly as many lines as will ever be completed.  Start position:
@@ -122,7 +122,7 @@ fn verif_grid() {
     let mut g = Grid::new("c10");
     let long = "y".repeat(20000);
     let contents: Vec<Vec<u8>> = vec![
-        b("one\ntwo\nthree\n"), b("\n\nx\n\n"), b("naïve – ünï\n日本語 \u{1F600}\nz\n"), b("a\r\nb\r\n"), b(&format!("{}\nshort\n{}\n", long, long)), b("done\ntail without newline"), b("é\n"),
+        b("one\ntwo\nthree\n"), b("\n\nx\n\n"), b("naïve – ünï\n日本語 \u{1F600}\nz\n"), b("a\r\nb\r\n"), b(&format!("{}\nshort\n{}\n", long, long)), b("done\ntail without newline"), b("é\n"), b("\u{feff}first\n\u{feff}second\n"),
     ];
     for (ci, content) in contents.iter().enumerate() {
         let mut chunkings: Vec<Vec<usize>> = Vec::new();
